@@ -122,6 +122,26 @@ func (e *Engine) VerifyFunction(fn *ssa.Function, con *Contract) (res *FnResult)
 		}
 	}
 	if con != nil {
+		// locks the caller holds (entry-held x.mu): held exactly once at entry, and again at exit (lock balance)
+		for _, eh := range con.EntryHeld {
+			sel, ok := eh.(*ESel)
+			var l *Loc
+			if ok {
+				l = env.selLoc(sel.X, sel.Name)
+			}
+			if l == nil {
+				fx.unsupported("entry-held: not a field location")
+				continue
+			}
+			key := "L|" + l.className()
+			if fx.entryLocks == nil {
+				fx.entryLocks = map[string]string{}
+			}
+			arr := tSto(fx.entryLockArr(key), l.Ref, "1")
+			fx.entryLocks[key] = arr
+			st.heapSet(key, "(Array Int Int)", arr)
+			fx.locksTouched[key] = true
+		}
 		for _, r := range con.Requires {
 			fx.sol.Assert(env.evalBool(r.E))
 		}
